@@ -526,3 +526,51 @@ func ZZ_C19_canaryCommandSequences() {
 	nondet.Reach("C19.seq.command-after-the-end", ended && !reconcileBetween == false)
 	nondet.Reach("C19.seq.validate-while-paused", paused && validated && !failed)
 }
+
+// ZZ_C19_pauseDoesNotOutliveItsCanary: "pause leads to state Canary Paused" — of the canary the command
+// was run on, not of the next one.  A canary the user paused (or paused and resumed) is ended by
+// `validate` or `fail`; the reconcile that ends it may stop half-way (its write of the object's
+// metadata/spec is rejected once, after the status was written), and fault-free reconciles follow.
+// Then the template is edited again: the new canary starts in state Canary, not Canary Paused, and
+// becomes the canary named in the status.
+func ZZ_C19_pauseDoesNotOutliveItsCanary() {
+	start := nondet.String("start", "user-paused", "resumed")
+	c, _ := zzScenario(start)
+	cmd := nondet.String("endedBy", "validate", "fail")
+	nondet.Assert("C19.outlive.command-accepted", zzRunCanaryCmd(c, cmd) == nil)
+	// the reconcile that ends the canary: its Update of the object may be rejected once
+	c.InjectFaults = true
+	c.FaultForce = 1
+	rejectedOnce := false
+	rejectUpdate := nondet.Bool("updateRejectedOnce")
+	c.FaultOnly = func(verb, kind, name, node string) bool {
+		if rejectUpdate && !rejectedOnce && verb == "update" && kind == "ExtendedDaemonSet" {
+			rejectedOnce = true
+			return true
+		}
+		return false
+	}
+	_ = zzReconcileEDS(c)
+	c.InjectFaults = false
+	_ = zzReconcileEDS(c)
+	_ = zzReconcileEDS(c)
+	ended := zzStored(c)
+	nondet.Assert("C19.outlive.canary-ended", ended.Status.Canary == nil)
+	// a new template: the next canary
+	ended.Spec.Template = zzTpl("C")
+	_ = zzReconcileEDS(c) // creates the replica set of C
+	var rsC string
+	for _, rs := range c.ERS {
+		if rs.Name != "foo-a" && rs.Name != "foo-b" {
+			rsC = rs.Name
+		}
+	}
+	nondet.Assert("C19.outlive.next-replicaset-created", rsC != "")
+	r1 := zzReconcileEDS(c)
+	r2 := zzReconcileEDS(c)
+	final := zzStored(c)
+	nondet.Observe("state", string(final.Status.State))
+	nondet.Assert("C19.outlive.next-canary-runs", r1 == nil && r2 == nil && final.Status.Canary != nil && final.Status.Canary.ReplicaSet == rsC)
+	nondet.Assert("C19.outlive.next-canary-not-paused", final.Status.State == v1alpha1.ExtendedDaemonSetStatusStateCanary)
+	nondet.Reach("C19.outlive.half-way", rejectedOnce)
+}
